@@ -188,7 +188,7 @@ memset(void *d, int c, size_t n)
 /* ---- bounded harnesses (-DRLE_LOOP_COPY): memcpy/memset as plain byte loops (exact semantics
    for non-overlapping ranges; unwound to the harness bound) instead of cbmc's array models, whose
    symbolic-length form needs a fresh variable-length object per call ---- */
-#if defined(H4V_CBMC) && defined(RLE_LOOP_COPY)
+#if defined(H4V_CBMC) && (defined(RLE_LOOP_COPY) || defined(H4V_CEX)) /* also in counterexample mode */
 /* The only memcpy of crle.c is the decoder's copy out of its RLE buffer (asserted here).  The
    source pointer &buffer[buf_pos] has a symbolic offset into the coder state; it is re-based on
    the typed RLE buffer of the harness' object: the same bytes, but an array access for cbmc
@@ -642,7 +642,9 @@ mk_info(void)
 #if defined(H4V_CEX) || defined(H4V_NATIVE)
     /* counterexample mode: only the first 8 buffer bytes are named inputs */
     H4V_ASSUME(st_state != RLE_MIX || (st_buf_length >= 0 && st_buf_length <= 8 && st_buf_pos <= 8 - st_buf_length));
+#ifdef H4V_NATIVE
     memset(RF(info, buffer), 0, 128);
+#endif
     ND_BYTES8(RF(info, buffer), 8, rb);
 #endif
     return info;
